@@ -62,7 +62,10 @@ class Importer(Party):
                 evs.append({"dup_first": True, "ev": self.ev()})  # "ev" is used when the first item cannot be repeated
                 continue
             if y < c.get("upsert_p", 0.0):
-                evs.append({"upsert": r.randrange(0, 1000), "ev": self.ev()})
+                it = {"upsert": r.randrange(0, 1000), "ev": self.ev()}
+                if r.random() < c.get("again_p", 0.0):
+                    it["again"] = True
+                evs.append(it)
             elif y < c.get("upsert_p", 0.0) + c.get("foreign_p", 0.0):
                 evs.append({"foreign": r.randrange(0, 1000), "ev": self.ev()})
             else:
